@@ -22,7 +22,7 @@ from __future__ import annotations
 import re
 from typing import Callable, List, Optional, Tuple
 
-P = 25          # percent
+P = 22          # percent
 P_COND = 60
 
 T = "a&amp;b&lt;c&gt;\"d'e"            # element text
@@ -33,6 +33,53 @@ KINDS = ["company-datas", "admin-data:layer", "admin-data:dop", "admin-data:requ
          "funct-class", "audience", "state-chart", "single-ecu-job", "library", "related-diag-comm",
          "dyn-defined-spec", "diag-variable", "variable-group", "table-diag-comm-connector", "sub-component",
          "unit-spec", "constr", "linked-dtc-dop", "empty-long-name"]
+
+
+_CAPS: dict = {}
+
+
+def caps() -> dict:
+    """what the parser under test accepts (probed once per process with tiny documents in strict mode):
+    forms that the pinned parser rejected although they are valid ODX are only generated once it takes them"""
+    if _CAPS:
+        return _CAPS
+    import io
+    import warnings
+    import odxtools.exceptions
+    from odxtools.database import Database
+    head = ('<?xml version="1.0"?><ODX MODEL-VERSION="2.2.0" xmlns:xsi="http://www.w3.org/2001/XMLSchema-instance">'
+            '<DIAG-LAYER-CONTAINER ID="dlc"><SHORT-NAME>dlc</SHORT-NAME><BASE-VARIANTS><BASE-VARIANT ID="layer">'
+            '<SHORT-NAME>layer</SHORT-NAME><DIAG-COMMS>'
+            '<DIAG-SERVICE ID="a" DIAGNOSTIC-CLASS="CLEAR-DYN-DEF-MESSAGE"><SHORT-NAME>a</SHORT-NAME><REQUEST-REF ID-REF="r"/></DIAG-SERVICE>'
+            '<DIAG-SERVICE ID="b" DIAGNOSTIC-CLASS="READ-DYN-DEFINED-MESSAGE"><SHORT-NAME>b</SHORT-NAME><REQUEST-REF ID-REF="r"/></DIAG-SERVICE>'
+            '<DIAG-SERVICE ID="c" DIAGNOSTIC-CLASS="DYN-DEF-MESSAGE"><SHORT-NAME>c</SHORT-NAME><REQUEST-REF ID-REF="r"/></DIAG-SERVICE>'
+            '</DIAG-COMMS><REQUESTS><REQUEST ID="r"><SHORT-NAME>r</SHORT-NAME></REQUEST></REQUESTS>')
+    tail = '</BASE-VARIANT></BASE-VARIANTS></DIAG-LAYER-CONTAINER></ODX>'
+    probes = {
+        "variable-group": '<VARIABLE-GROUPS><VARIABLE-GROUP ID="vg"><SHORT-NAME>vg</SHORT-NAME></VARIABLE-GROUP></VARIABLE-GROUPS>',
+        "variable-group-ref": ('<DIAG-VARIABLES><DIAG-VARIABLE ID="dv"><SHORT-NAME>dv</SHORT-NAME><VARIABLE-GROUP-REF ID-REF="vg"/>'
+                               '</DIAG-VARIABLE></DIAG-VARIABLES><VARIABLE-GROUPS><VARIABLE-GROUP ID="vg"><SHORT-NAME>vg</SHORT-NAME>'
+                               '</VARIABLE-GROUP></VARIABLE-GROUPS>'),
+        "dyn-ref": ('<DYN-DEFINED-SPEC><DYN-ID-DEF-MODE-INFOS><DYN-ID-DEF-MODE-INFO><DEF-MODE>x</DEF-MODE>'
+                    '<CLEAR-DYN-DEF-MESSAGE-REF ID-REF="a"/><READ-DYN-DEF-MESSAGE-REF ID-REF="b"/><DYN-DEF-MESSAGE-REF ID-REF="c"/>'
+                    '</DYN-ID-DEF-MODE-INFO></DYN-ID-DEF-MODE-INFOS></DYN-DEFINED-SPEC>'),
+    }
+    old = odxtools.exceptions.strict_mode
+    odxtools.exceptions.strict_mode = True
+    try:
+        for name, body in probes.items():
+            try:
+                with warnings.catch_warnings():
+                    warnings.simplefilter("ignore")
+                    db = Database()
+                    db.add_odx_file(io.BytesIO((head + body + tail).encode()))
+                    db.refresh()
+                _CAPS[name] = True
+            except Exception:
+                _CAPS[name] = False
+    finally:
+        odxtools.exceptions.strict_mode = old
+    return _CAPS
 
 
 def _layer_tag(xml: str) -> Optional[str]:
@@ -229,8 +276,10 @@ def k_audience(d: _Doc, draw) -> bool:
 def k_state_chart(d: _Doc, draw) -> bool:
     eam = (f'<EXTERNAL-ACCESS-METHOD ID="dx_eam"><SHORT-NAME>dx_eam</SHORT-NAME><METHOD>{T}</METHOD>'
            f'</EXTERNAL-ACCESS-METHOD>') if draw_bool(draw) else ""
+    from hypothesis import strategies as st
+    sem = draw(st.sampled_from([T, "SESSION"]))      # a plain value keeps the rest of the chart observable
     sc = (f'<STATE-CHARTS><STATE-CHART ID="dx_sc" OID="{A}"><SHORT-NAME>dx_sc</SHORT-NAME><LONG-NAME>{T}</LONG-NAME>'
-          f'<SEMANTIC>{T}</SEMANTIC><STATE-TRANSITIONS><STATE-TRANSITION ID="dx_st1" OID="{A}"><SHORT-NAME>dx_st1</SHORT-NAME>'
+          f'<SEMANTIC>{sem}</SEMANTIC><STATE-TRANSITIONS><STATE-TRANSITION ID="dx_st1" OID="{A}"><SHORT-NAME>dx_st1</SHORT-NAME>'
           f'<LONG-NAME>{T}</LONG-NAME><SOURCE-SNREF SHORT-NAME="dx_s1"/><TARGET-SNREF SHORT-NAME="dx_s2"/>{eam}'
           f'</STATE-TRANSITION><STATE-TRANSITION ID="dx_st2"><SHORT-NAME>dx_st2</SHORT-NAME>'
           f'<SOURCE-SNREF SHORT-NAME="dx_s2"/><TARGET-SNREF SHORT-NAME="dx_s1"/></STATE-TRANSITION></STATE-TRANSITIONS>'
@@ -295,9 +344,13 @@ def k_dyn_defined_spec(d: _Doc, draw) -> bool:
     if t and t[2]:
         sel = (f'<SELECTION-TABLE-REFS><SELECTION-TABLE-REF ID-REF="{t[0]}"/>'
                f'<SELECTION-TABLE-SNREF SHORT-NAME="{t[2]}"/></SELECTION-TABLE-REFS>')
+    def msg(tag: str, name: str) -> str:
+        if caps()["dyn-ref"] and draw_bool(draw):
+            return f'<{tag}-REF ID-REF="{name}"/>'
+        return f'<{tag}-SNREF SHORT-NAME="{name}"/>'
     dds = (f'<DYN-DEFINED-SPEC><DYN-ID-DEF-MODE-INFOS><DYN-ID-DEF-MODE-INFO><DEF-MODE>{T}</DEF-MODE>'
-           '<CLEAR-DYN-DEF-MESSAGE-SNREF SHORT-NAME="dx_clr"/><READ-DYN-DEF-MESSAGE-SNREF SHORT-NAME="dx_rd"/>'
-           '<DYN-DEF-MESSAGE-SNREF SHORT-NAME="dx_def"/><SUPPORTED-DYN-IDS><SUPPORTED-DYN-ID>F2</SUPPORTED-DYN-ID>'
+           + msg("CLEAR-DYN-DEF-MESSAGE", "dx_clr") + msg("READ-DYN-DEF-MESSAGE", "dx_rd")
+           + msg("DYN-DEF-MESSAGE", "dx_def") + '<SUPPORTED-DYN-IDS><SUPPORTED-DYN-ID>F2</SUPPORTED-DYN-ID>'
            f'<SUPPORTED-DYN-ID>0a0b</SUPPORTED-DYN-ID></SUPPORTED-DYN-IDS>{sel}</DYN-ID-DEF-MODE-INFO>'
            '</DYN-ID-DEF-MODE-INFOS></DYN-DEFINED-SPEC>')
     d.xml = _before(d.xml, d.close, dds, last=True)
@@ -312,8 +365,14 @@ def k_diag_variable(d: _Doc, draw) -> bool:
     tr = (f'<SNREF-TO-TABLEROW><TABLE-SNREF SHORT-NAME="{t[2]}"/><TABLE-ROW-SNREF SHORT-NAME="{t[1]}"/>'
           f'</SNREF-TO-TABLEROW>') if (t and t[1] and t[2] and draw_bool(draw)) else ""
     ad = _admin_data(True) if draw_bool(draw) else ""
+    vgref = ""
+    if caps()["variable-group-ref"] and draw_bool(draw):
+        if k_variable_group(d, draw):
+            d.feats.append("deco:variable-group")
+        vgref = '<VARIABLE-GROUP-REF ID-REF="dx_vg"/>'
+        d.feats.append("deco:variable-group-ref")
     dv = (f'<DIAG-VARIABLES><DIAG-VARIABLE ID="dx_dv" OID="{A}" IS-READ-BEFORE-WRITE="true"><SHORT-NAME>dx_dv</SHORT-NAME>'
-          f'<LONG-NAME>{T}</LONG-NAME>{ad}<SW-VARIABLES><SW-VARIABLE OID="{A}"><SHORT-NAME>dx_sw</SHORT-NAME>'
+          f'<LONG-NAME>{T}</LONG-NAME>{ad}{vgref}<SW-VARIABLES><SW-VARIABLE OID="{A}"><SHORT-NAME>dx_sw</SHORT-NAME>'
           f'<LONG-NAME>{T}</LONG-NAME><ORIGIN>{T}</ORIGIN></SW-VARIABLE></SW-VARIABLES><COMM-RELATIONS>'
           f'<COMM-RELATION VALUE-TYPE="CURRENT"><DESC><p>rel &amp; ation</p></DESC><RELATION-TYPE>{T}</RELATION-TYPE>'
           f'<DIAG-COMM-REF ID-REF="svc0"/></COMM-RELATION><COMM-RELATION><RELATION-TYPE>READ</RELATION-TYPE>'
@@ -325,6 +384,8 @@ def k_diag_variable(d: _Doc, draw) -> bool:
 
 def k_variable_group(d: _Doc, draw) -> bool:
     if d.lt not in ("BASE-VARIANT", "ECU-VARIANT", "FUNCTIONAL-GROUP", "ECU-SHARED-DATA"):
+        return False
+    if not caps()["variable-group"] or 'ID="dx_vg"' in d.xml:
         return False
     vg = (f'<VARIABLE-GROUPS><VARIABLE-GROUP ID="dx_vg"><SHORT-NAME>dx_vg</SHORT-NAME><LONG-NAME>{T}</LONG-NAME>'
           f'</VARIABLE-GROUP></VARIABLE-GROUPS>')
@@ -356,11 +417,20 @@ def k_sub_component(d: _Doc, draw) -> bool:
     if dd and dd[1]:
         parts += (f'<DTC-CONNECTORS><DTC-CONNECTOR><SHORT-NAME>dx_dtcc</SHORT-NAME><LONG-NAME>{T}</LONG-NAME>'
                   f'<DTC-DOP-REF ID-REF="{dd[0]}"/><DTC-SNREF SHORT-NAME="{dd[1][0][1]}"/></DTC-CONNECTOR></DTC-CONNECTORS>')
+    m = re.search(r'<ENV-DATA-DESC ID="([^"]+)".*?<ENV-DATA-REF ID-REF="([^"]+)"', d.xml, re.S)
+    if m:
+        n = re.search(r'<ENV-DATA ID="' + re.escape(m.group(2)) + r'"[^>]*><SHORT-NAME>([^<]+)</SHORT-NAME>', d.xml)
+        if n:
+            parts += (f'<ENV-DATA-CONNECTORS><ENV-DATA-CONNECTOR><SHORT-NAME>dx_edc</SHORT-NAME><LONG-NAME>{T}</LONG-NAME>'
+                      f'<ENV-DATA-DESC-REF ID-REF="{m.group(1)}"/><ENV-DATA-SNREF SHORT-NAME="{n.group(1)}"/>'
+                      f'</ENV-DATA-CONNECTOR></ENV-DATA-CONNECTORS>')
     sc = (f'<SUB-COMPONENTS><SUB-COMPONENT ID="dx_sub" OID="{A}" SEMANTIC="{A}"><SHORT-NAME>dx_sub</SHORT-NAME>'
           f'<LONG-NAME>{T}</LONG-NAME>{parts}</SUB-COMPONENT></SUB-COMPONENTS>')
     d.xml = _before(d.xml, d.close, sc, last=True)
     if "TABLE-ROW-CONNECTORS" in parts:
         d.feats.append("deco:sub-component:table-row-connector")
+    if "ENV-DATA-CONNECTORS" in parts:
+        d.feats.append("deco:sub-component:env-data-connector")
     if "DTC-CONNECTORS" in parts:
         d.feats.append("deco:sub-component:dtc-connector")
     return True
